@@ -11,6 +11,8 @@ import (
 	"fmt"
 	"math/rand"
 	"os"
+	"sync"
+	"sync/atomic"
 	"time"
 
 	"github.com/boz/kcache"
@@ -247,6 +249,25 @@ func runCtlScenario(w *ndWriter, seed int64, variant string, idx int) bool {
 		s.addNode(root, "dclone", "none", "null")
 	}
 
+	// a reader of the controller's cache next to the list/watch traffic (relist, watch): what List and Get return
+	// is the cache content at some point between call and return, whatever the controller is doing
+	var rdStop int32
+	var rdCount int64
+	var rdWG sync.WaitGroup
+	if variant == "relist" || variant == "watch" {
+		rdWG.Add(1)
+		cname := tr.NameOf(ctl.Cache())
+		go func() {
+			defer rdWG.Done()
+			hw_readerPaced(tr, ctl.Cache(), cname, 0, seed, &rdStop, &rdCount, 1500*time.Microsecond)
+		}()
+	}
+	stopReader := func() {
+		atomic.StoreInt32(&rdStop, 1)
+		rdWG.Wait()
+	}
+	defer stopReader()
+
 	how := "close"
 	switch variant {
 	case "relist", "listfail":
@@ -300,6 +321,7 @@ func runCtlScenario(w *ndWriter, seed int64, variant string, idx int) bool {
 			}
 			srv.mu.Unlock()
 			s.waitLists(2, 3*time.Second+4*period)
+			stopReader()
 			s.barrierRetry("final")
 		}
 	case "watch":
@@ -337,6 +359,7 @@ func runCtlScenario(w *ndWriter, seed int64, variant string, idx int) bool {
 		tr.LogRaw("drv", "expect", fmt.Sprintf(`"what":"watch-reestablished","met":%v`, met))
 		srv.Converged = met
 		time.Sleep(100 * time.Millisecond)
+		stopReader()
 		s.barrierRetry("final")
 	case "timing":
 		slowNow = slow
